@@ -28,6 +28,8 @@ type harnessSpec struct {
 	ExpectPanic bool           `json:"expect_panic,omitempty"`
 	TimeoutMs   int            `json:"timeout_ms,omitempty"`
 	QuickOnly   bool           `json:"quick_only,omitempty"`
+	NoSelfval   bool           `json:"no_selfval,omitempty"`
+	SelfvalN    int            `json:"selfval_n,omitempty"`
 	ThoroughOnly bool          `json:"thorough_only,omitempty"`
 }
 
@@ -72,6 +74,7 @@ type replayResult struct {
 	Ran      bool
 	Crashed  bool
 	Race     bool
+	Asserts  []string
 }
 
 // nativeReplay runs the given replay files against the real build.
@@ -172,6 +175,12 @@ func nativeReplayBatch(P *Program, files []string, race bool) (map[string]*repla
 		p := strings.Trim(m[4], "\"")
 		r.Panic = p
 		res[m[1]] = r
+	}
+	reA := regexp.MustCompile(`(?m)^VERIF-ASSERTS file=(\S+) \[([^\]]*)\]$`)
+	for _, m := range reA.FindAllStringSubmatch(string(out), -1) {
+		if r := res[m[1]]; r != nil && m[2] != "" {
+			r.Asserts = strings.Split(m[2], ",")
+		}
 	}
 	if len(res) == 0 && runErr != nil {
 		so := string(out)
@@ -359,6 +368,35 @@ func cmdCheck(args []string) int {
 	// ---- native replay of candidates ----
 	replayDir := envOr("VERIF_REPLAY_DIR", filepath.Join(verifDir, "replays"))
 	os.MkdirAll(replayDir, 0755)
+
+	// ---- self-validation vectors (engine concrete mode vs native build) ----
+	svDir, _ := os.MkdirTemp("", "verif-selfval-")
+	defer os.RemoveAll(svDir)
+	var svCases []selfvalCase
+	svN := 4
+	if *tier == "thorough" {
+		svN = 20
+	}
+	if v := os.Getenv("VERIF_SELFVAL"); v != "" {
+		fmt.Sscan(v, &svN)
+	}
+	for _, hs := range spec.Harnesses {
+		if *only != "" && hs.Name != *only {
+			continue
+		}
+		if (*tier == "quick" && hs.ThoroughOnly) || (*tier == "thorough" && hs.QuickOnly) || hs.NoSelfval {
+			continue
+		}
+		b := hs.Quick
+		if *tier == "thorough" && hs.Thorough != nil {
+			b = hs.Thorough
+		}
+		n := svN
+		if hs.SelfvalN > 0 && hs.SelfvalN < n {
+			n = hs.SelfvalN
+		}
+		svCases = append(svCases, selfValidate(P, hs.Name, b, n, int64(seed)+1, svDir)...)
+	}
 	sort.Slice(allV, func(a, b int) bool { return allV[a].Key < allV[b].Key })
 	const maxReplays = 40
 	var files []string
@@ -404,6 +442,9 @@ func cmdCheck(args []string) int {
 		seenPair[pair] = true
 		raceFiles[path] = true
 	}
+	for _, c := range svCases {
+		plainFiles = append(plainFiles, c.File)
+	}
 	results, rawOut, rerr := nativeReplay(P, plainFiles, false)
 	for path := range raceFiles {
 		if rerr != nil {
@@ -429,6 +470,13 @@ func cmdCheck(args []string) int {
 		fmt.Fprintln(os.Stderr, tailStr(rawOut, 3000))
 		writeInfraEvidence(prop, *tier, seed, "native replay infrastructure failed", time.Since(t0))
 		return 2
+	}
+	svMismatch := 0
+	for _, c := range svCases {
+		if msg := compareSelfval(c, results[c.File]); msg != "" {
+			svMismatch++
+			fmt.Fprintf(os.Stderr, "SELF-VALIDATION MISMATCH harness=%s vector=%v\n  %s\n", c.Harness, c.Engine.Vector, msg)
+		}
 	}
 	isKnown := func(key string) *knownFinding {
 		for k := range known {
@@ -531,6 +579,8 @@ func cmdCheck(args []string) int {
 			"states":                        maxInt(total.Paths-total.Vacuous, 0),
 			"transitions":                   total.Decisions,
 			"traces_validated_against_impl": len(results),
+			"selfvalidation_vectors":        len(svCases),
+			"selfvalidation_mismatches":     svMismatch,
 			"obligations":                   total.Obligations,
 			"discharged":                    total.Discharged,
 			"exhaustive":                    exhaustive,
@@ -560,6 +610,12 @@ func cmdCheck(args []string) int {
 	}
 	fmt.Fprintf(os.Stderr, "[%s] tier=%s paths=%d obligations=%d/%d violations=%d known=%d unconfirmed=%d exhaustive=%v wall=%.1fs\n",
 		prop, *tier, total.Paths, total.Discharged, total.Obligations, violations, len(knownHit), unconfirmed, exhaustive, time.Since(t0).Seconds())
+	if svMismatch > 0 {
+		fmt.Fprintf(os.Stderr, "[%s] the symbolic interpreter and the native build disagree on %d concrete vectors: no verdict of the engine can be trusted\n", prop, svMismatch)
+		if violations == 0 {
+			return 2
+		}
+	}
 	if violations > 0 {
 		return 1
 	}
